@@ -145,9 +145,18 @@ def moved_ok(C, groups, lookup, path_of, key, n, census_name=None):
     def spare(g):
         gk = C.fn_key(g)
         cnt = lookup(gk, kind)
-        if cnt is None:
-            return None
-        return cnt - cur.get((gk, kind), 0) - used.get((gk, kind), 0)
+        vals = []
+        if cnt is not None:
+            vals.append(cnt - cur.get((gk, kind), 0) - used.get((gk, kind), 0))
+        if census_name:
+            # sites that sat in a closure of the caller are counted under the caller's named root (root_budget.json, reviewed tree)
+            from .census import root_budget, root_key
+            rk = root_key(gk)
+            rb = root_budget().get(census_name, {}).get('%s|%s' % (rk, kind))
+            if rb is not None:
+                curroot = sum(n_ for (k_, kk_), n_ in cur.items() if kk_ == kind and root_key(k_) == rk)
+                vals.append(rb - curroot - used.get(('root', rk, kind), 0))
+        return max(vals) if vals else None
     if census_name:
         from .census import within_root_budget, root_key
         if within_root_budget(census_name, groups, fk, kind):
@@ -160,6 +169,9 @@ def moved_ok(C, groups, lookup, path_of, key, n, census_name=None):
         for g in tops:
             gk = C.fn_key(g)
             used[(gk, kind)] = used.get((gk, kind), 0) + n
+            if census_name:
+                from .census import root_key as _rk
+                used[('root', _rk(gk), kind)] = used.get(('root', _rk(gk), kind), 0) + n
     return tops
 
 
